@@ -148,6 +148,7 @@ func EngineUnits(prop string, t Tier, seed uint64) ([]engine.Unit, error) {
 	case "C03":
 		cfg := base(prop, engine.MRange, t)
 		cfg.ClosedAllQueries = true
+		cfg.ClosedNeighbours = t.F > 1
 		cfg.Histories = 50 * t.F
 		cfg.Queries = 8
 		cfg.CheckEvery = []int{2, 5, 10}
